@@ -95,6 +95,8 @@ CHECKS = {
    technique="property-based testing: exhaustive enumeration + proptest-driven random search against an exact reference codec (differential oracle)"),
 }
 NOT_YET = {}
+# properties whose proptest sub-checks are also driven by libFuzzer in the thorough tier (harness/src/props/mod.rs: fuzz_plan)
+FUZZED = {"C01","C02","C03","C04","C05","C06","C07","C08","C09","C12","C13","C14","C15","C16","C17","C18","C19","C20"}
 ALL = ["C%02d" % i for i in range(1, 21)]
 def main():
     checks = []
@@ -110,7 +112,7 @@ def main():
             "engine": "harness",
             "level_claimed": {"category": c["level"], "text": c["text"], "design_ref": "DESIGN.md section " + c["design"]},
             "level_note": c["note"],
-            "technique": c["technique"],
+            "technique": c["technique"] + ("; thorough tier adds coverage-guided fuzzing (libFuzzer over the choice sequence of the same generators and oracles, failures minimised and replayed through the harness)" if pid in FUZZED else "") + ("; thorough tier adds a libFuzzer campaign over raw input bytes with the same oracle" if pid in ("C10", "C11") else ""),
         })
     na = [{"property_id": p, "reason": NOT_YET.get(p, "check not built yet in this revision of /verif (work in progress; planned, see DESIGN.md section 4)")} for p in ALL if p not in CHECKS]
     m = {
@@ -125,6 +127,7 @@ def main():
       },
       "engines": [
         {"name": "harness", "path": "/verif/harness", "serves_properties": sorted(CHECKS), "kind_free_text": "Rust binary: proptest 1.11 TestRunner over choice sequences (seeded by VERIF_SEED, shrinking, replay files), exhaustive enumerators for finite sub-spaces, independent reference models as oracles, child-process isolation for aborting cases"},
+        {"name": "fuzz", "path": "/verif/fuzz", "serves_properties": sorted(FUZZED | {"C10", "C11"}), "kind_free_text": "cargo-fuzz / libFuzzer targets used by the thorough tier: `choice` drives the harness's case functions (generator + oracle) with the fuzzer's bytes as the choice sequence, 8 processes per sub-check; `gds_read` / `lef_read` feed raw bytes to the two readers with the C10 / C11 oracle in the target"},
       ],
       "checks": checks,
       "notes": "Driver: ./check <Cxx> [--tier quick|thorough] [--replay FILE]. Exit 0 held / 1 VIOLATION / 2 inconclusive or build failure. Known findings: /verif/known_findings.json.",
